@@ -75,10 +75,10 @@ class Predicate:
 
         :param old_to_new_param_names: the mapping of old parameter names to new parameter names.
         """
-        ordered_old_parameters = list(self.signature.keys())
-        for old_param_name in ordered_old_parameters:
-            new_param_name = old_to_new_param_names[old_param_name]
-            self.signature[new_param_name] = self.signature.pop(old_param_name)
+        self.signature = {
+            old_to_new_param_names.get(param_name, param_name): param_type
+            for param_name, param_type in self.signature.items()
+        }
 
     @property
     def untyped_representation(self) -> str:
